@@ -27,11 +27,13 @@ from axolotl.groups.groupsessionbuilder import GroupSessionBuilder
 ID = "C13"
 LEVEL = "fault_enumeration"
 RULE = ("generated scripts of 1-14 operations over the store API (save/replace identity, store/replace/delete session, "
-        "delete-all sessions, store/remove one-time prekey, mark prekeys as sent, store/remove signed prekey, store/replace "
+        "delete-all sessions, store/remove one-time prekey, mark prekeys as sent (a list in generated order that may also name keys "
+        "removed earlier), store/remove signed prekey, store/replace "
         "sender key, close+reopen) over 3 contacts / 2 groups with real records (identity keys, X3DH session records of two "
         "in-memory parties, KeyHelper prekeys, group sender keys); after every op the touched record is read back, after every "
         "reopen and at the end the whole store is compared with the dict model; every mutating op runs under the crash-point "
-        "recorder and every distinct on-disk state is reopened and compared. Non-trivial = a replace of an existing identity, "
+        "recorder and every distinct on-disk state is reopened and compared (previous or new value), and so is the on-disk state right "
+        "after the call returned (new value). Non-trivial = a replace of an existing identity, "
         "session or sender key with >= 2 crash states, or a reopen after a delete. evaluations counts scripts plus crash states; "
         "distinct = distinct canonical JSON of the script.")
 ASSUMPTIONS = [
@@ -196,6 +198,7 @@ def run_case(case):
     states_total = 0
     nt = False
     deleted_before_reopen = False
+    removed_prekeys = []
     try:
         store = LiteAxolotlStore(dbpath)
         own = read_store(store, P)["own"]
@@ -250,6 +253,7 @@ def run_case(case):
                 i = sorted(before.prekeys)[op[1] % len(before.prekeys)]
                 old = before.prekeys[i]
                 del model.prekeys[i]
+                removed_prekeys.append(i)
                 allow = ("prekeys", {i: {ABSENT, old}})
                 fn = lambda: store.removePreKey(i)  # noqa
                 out.label("remove_prekey")
@@ -258,10 +262,17 @@ def run_case(case):
             elif kind == "set_sent":
                 if not before.prekeys:
                     continue
-                ids = sorted(before.prekeys)
-                chosen = sorted(set(ids[j % len(ids)] for j in op[1])) or ids[:1]
+                # ids in generated order; the list may name keys that are gone by now (consumed while the upload was in flight)
+                ids = sorted(before.prekeys) + sorted(set(removed_prekeys) - set(before.prekeys))
+                chosen = []
+                for j in op[1]:
+                    if ids[j % len(ids)] not in chosen:
+                        chosen.append(ids[j % len(ids)])
                 amap = {}
                 for i in chosen:
+                    if i not in before.prekeys:
+                        out.label("set_sent_names_missing_key")
+                        continue
                     old = before.prekeys[i]
                     model.prekeys[i] = (old[0], True)
                     amap[i] = {old, (old[0], True)}
@@ -349,6 +360,16 @@ def run_case(case):
                                  {"step": step, "at": tag, "state": n_states, "of": len(rec_.snaps), "diff": d,
                                   "files": [f for f, h in fp]})
                         break
+                if not out.violations and rec_.final:
+                    # the call has returned: a process killed now must find the new value after reopening
+                    try:
+                        s3 = LiteAxolotlStore(os.path.join(rec_.final, "axolotl.db"))
+                        d = compare(read_store(s3, P), expect_of(model), own)
+                    except Exception as e:
+                        d = "store does not open: %r" % (e,)
+                    if d:
+                        out.fail("durability", "durability:lost_when_killed_after_%s_returned:%s" % (kind, d.split("[")[0]),
+                                 {"step": step, "diff": d[:400]})
                 states_total += n_states
                 if repl and n_states >= 2:
                     nt = True
@@ -390,7 +411,9 @@ def op_strategy():
         st.just(["store_prekey"]),
         st.just(["store_prekey"]),
         st.tuples(st.just("remove_prekey"), sel).map(list),
-        st.tuples(st.just("set_sent"), st.lists(sel, min_size=1, max_size=4)).map(list),
+        st.tuples(st.just("set_sent"), st.lists(st.integers(0, 9), min_size=1, max_size=6)).map(list),
+        st.tuples(st.just("set_sent"), st.lists(st.integers(0, 9), min_size=1, max_size=6)).map(list),
+        st.tuples(st.just("remove_prekey"), sel).map(list),
         st.just(["store_signed"]),
         st.tuples(st.just("remove_signed"), sel).map(list),
         st.tuples(st.just("store_sender_key"), sel, sel, sel).map(list),
@@ -405,6 +428,9 @@ def _enum_basic():
     yield {"sub": "script", "ops": [["store_sender_key", 0, 0, 0], ["store_sender_key", 0, 0, 1], ["reopen"]]}
     yield {"sub": "script", "ops": [["store_prekey"], ["store_prekey"], ["set_sent", [0]], ["reopen"], ["remove_prekey", 0], ["reopen"]]}
     yield {"sub": "script", "ops": [["store_signed"], ["store_signed"], ["remove_signed", 0], ["reopen"]]}
+    # the upload that is being confirmed named keys that were consumed in the meantime, in any position of the list
+    for order in ([0, 1, 2], [2, 0, 1], [0, 2, 1], [2]):
+        yield {"sub": "script", "ops": [["store_prekey"], ["store_prekey"], ["store_prekey"], ["remove_prekey", 2], ["set_sent", order], ["reopen"]]}
     yield {"sub": "script", "ops": [["store_session", 1, 0], ["save_identity", 1, 2], ["delete_session", 1], ["reopen"],
                                     ["store_session", 1, 3], ["delete_all", 1], ["reopen"]]}
 
